@@ -128,8 +128,9 @@ def is_abandoned(data, path):
 # selection set that was nulled by a *synchronous* error are left to `settle_in_background`; they
 # stay pending until the environment completes them) also counts as a violation of "the whole
 # subtree completed".  On the pinned tree this happens (see ASSUMPTIONS of checks/c03.py); it is
-# reported in the evidence (`serial_background_overlaps`) instead.
-STRICT_BACKGROUND = False
+# listed in known_findings.json under the fingerprint `mutation-overlap-background` and also counted
+# in the evidence (`serial_background_overlaps`).
+STRICT_BACKGROUND = True
 
 
 def mutation_serial(case, events, data, root_order):
